@@ -119,7 +119,7 @@ def gen_cases(rng, tier):
     for k, seq in enumerate(itertools.product(VARIANTS, repeat=n)):
         cases.append({"in": [k & 1, [1], [1, 2], [[0, 0, 0]] + [list(v) for v in seq] + [[0, 0, 0], [1, 1, 0]]],
                       "kind": "frame-%d" % n})
-    for _ in range(20000 if tier == "thorough" else 1000):
+    for _ in range(20000 if tier == "thorough" else 800):
         cases.append(_random_case(rng))
     return cases
 
